@@ -35,11 +35,10 @@ require github.com/magefile/mage v0.0.0
 replace github.com/magefile/mage => %s
 """ % (MOD, REPO)
 
-# Which Invoke the model is asked to be (Model/Lifecycle.v, world field w_cleanup): the code that exists
-# returns on GenerateMainfile's error before the deferred removal is registered (False).  Set to True
-# when a fix: commit makes Invoke remove the file again on that path (then C09_clean_after_suggested_repair
-# is the theorem that applies and the known finding C09-write-failure-leaves-mainfile becomes "fixed").
-CLEANUP_AFTER_FAILED_GENERATION = False
+# Which Invoke the model is asked to be (Model/Lifecycle.v, world field w_cleanup): since commit 1372a21
+# GenerateMainfile removes the file on its Execute / Close / Chtimes error paths (True).  False is the
+# code before that commit (kept in the model for C09_clean_before_repair_refuted).
+CLEANUP_AFTER_FAILED_GENERATION = True
 
 STEPS = ["RemoveStale", "ListMage", "ListNonMage", "CheckFiles", "HashFiles", "GoVersion", "GoEnvGocache", "StatExe",
          "Parse", "GoListDir", "GoListFiles", "Dupes", "CreateMain", "WriteMain", "CloseMain", "Chtimes", "RegisterDefer",
@@ -314,6 +313,10 @@ def build_scenarios(rng, gen, quick):
     # J: the file system is full when the generated file is written
     A(scenario("enospc-0", enospc=0))
     A(scenario("enospc-4096", enospc=4096))
+    A(scenario("enospc-4096-keep", enospc=4096, keep=True))
+    if not quick:
+        A(scenario("enospc-0-keep", enospc=0, keep=True))
+        A(scenario("enospc-8192-hash", enospc=8192, hashfast=True))
     seen, out = set(), []
     for s in S:                      # the random picks may name the same scenario twice
         if s["id"] not in seen:
@@ -603,7 +606,7 @@ def oracle_run(sc, ob, gen_hashes, ref_ob):
     if after != expect:
         diff = sorted(k for k in set(after) | set(expect) if after.get(k) != expect.get(k))
         if sc["enospc"] is not None and all(k in main_paths(sc) for k in diff):
-            bad.append("generated-file-left-after-write-failure")
+            bad.append("after a failed write of the generated file (file system full) it remains in the magefile directory: %s" % diff)
         elif all(k in main_paths(sc) for k in diff) and all(k in after for k in diff):
             bad.append("a generated file remains in the magefile directory: %s" % diff)
         else:
@@ -919,10 +922,7 @@ def run(ctx):
         else:
             comparable = sc["layout"] == "flat" and sc["with_import"] and not sc["mutation"]
             for c in oracle_run(sc, ob, gen_hashes if comparable else None, ref_ob):
-                what = {"kind": "oracle", "clause": c}
-                if c != "generated-file-left-after-write-failure":
-                    what["scenario"] = sc["id"]
-                ctx.violation(what, case=case)
+                ctx.violation({"kind": "oracle", "clause": c, "scenario": sc["id"]}, case=case)
         lists = lists_for(sc)
         # the bytes the template writes for THIS package (their content is C18's subject, not C09's)
         my_gen = tok(base64.b64decode(ob["kept_b64"])) if ob.get("kept_b64") else gen_tok
@@ -1032,11 +1032,7 @@ def run(ctx):
                 impl = {"exit": oo.get("rc"), "stage": stage_of(oo) if oo.get("rc") is not None else None, "go_calls": oo.get("log"),
                         "changed": sorted(p for p in set(oo["before_h"]) | set(oo["after_h"]) if oo["before_h"].get(p) != oo["after_h"].get(p))[:6],
                         "stderr": oo.get("err", "")[-300:]}
-            hint = None
-            if sc and "id" in sc and sc.get("enospc") is not None and o and MAIN not in o["after_h"] and not CLEANUP_AFTER_FAILED_GENERATION:
-                hint = ("the implementation no longer leaves the generated file after a failed write: if that is a repair, set "
-                        "CLEANUP_AFTER_FAILED_GENERATION = True in checks/c09.py (theorem C09_clean_after_suggested_repair then applies)")
-            ctx.violation({"kind": "model-vs-implementation", "correspondence": "Run/eval_C09.mismatches", "what": kind, "hint": hint,
+            ctx.violation({"kind": "model-vs-implementation", "correspondence": "Run/eval_C09.mismatches", "what": kind,
                            "scenario": sc["id"] if (sc and "id" in sc) else sc, "model_says": body[:600], "implementation": impl},
                           case=({"scenario": sc, "proj_seed": proj_seed, "ref_scenario": byid.get(sc["ref"]) if sc.get("ref") else None} if (sc and "id" in sc) else sc),
                           found_input=False)
